@@ -206,7 +206,7 @@ theorem abs_insert : ∀ (fuel : Nat) (n : WN) (t : PT) (key : List Nib), abs n 
 
 /-! model-level equations for a short node whose key is a nibble string -/
 
-theorem insert_short_eq (fuel : Nat) (sk h : Bytes) (c : WN) (d tc : Bool) (key : List Nib) (hk : key ≠ [])
+theorem insert_short_eq_m (fuel : Nat) (sk h : Bytes) (c : WN) (d tc : Bool) (key : List Nib) (hk : key ≠ [])
     (value : WN) :
     insert hasDb s (fuel + 1) (.short sk h c d tc) key value =
       (let kb := key.map nb
@@ -226,24 +226,24 @@ theorem insert_short_eq (fuel : Nat) (sk h : Bytes) (c : WN) (d tc : Bool) (key 
   | nil => exact absurd rfl hk
   | cons k ks => rfl
 
-theorem insert_short_prefix (fuel : Nat) (sn K2 : List Nib) (hs : sn ≠ []) (h : Bytes) (c : WN) (d tc : Bool)
+theorem insert_short_prefix_m (fuel : Nat) (sn K2 : List Nib) (hs : sn ≠ []) (h : Bytes) (c : WN) (d tc : Bool)
     (value : WN) :
     insert hasDb s (fuel + 1) (.short (sn.map nb) h c d tc) (sn ++ K2) value =
       { node := .short (sn.map nb) h (insert hasDb s fuel c K2 value).node true tc,
         change := (insert hasDb s fuel c K2 value).change,
         err := (insert hasDb s fuel c K2 value).err,
         td := (insert hasDb s fuel c K2 value).td } := by
-  rw [insert_short_eq _ _ _ _ _ _ _ (by simp [hs])]
+  rw [insert_short_eq_m _ _ _ _ _ _ _ (by simp [hs])]
   simp only [cp_prefix]
   simp
 
-theorem insert_short_split (fuel : Nat) (a s' K' : List Nib) (i1 i2 : Nib) (hne : i1 ≠ i2) (h : Bytes) (c : WN)
+theorem insert_short_split_m (fuel : Nat) (a s' K' : List Nib) (i1 i2 : Nib) (hne : i1 ≠ i2) (h : Bytes) (c : WN)
     (d tc : Bool) (value : WN) :
     insert hasDb s (fuel + 1) (.short ((a ++ i1 :: s').map nb) h c d tc) (a ++ i2 :: K') value =
       { node := mkShort (a.map nb) (.routing [] (upd (upd noCh i1 (mkShort (s'.map nb) c)) i2 (mkShort (K'.map nb) value))
           (c.weight + value.weight) true false),
         change := value.weight, td := [h] } := by
-  rw [insert_short_eq _ _ _ _ _ _ _ (by simp)]
+  rw [insert_short_eq_m _ _ _ _ _ _ _ (by simp)]
   simp only [cp_split _ _ _ _ _ hne]
   have h1 : a.length ≠ ((a ++ i1 :: s').map nb).length := by simp
   simp only [h1, if_false]
@@ -286,7 +286,7 @@ theorem winv_split (h : Bytes) (d tc : Bool) (i1 i2 : Nib) (hne : i1 ≠ i2) (a 
 
 /-- 2b/3. on a uniform trie an insert with a key of the right length succeeds, keeps the cached weights right, and
 reports the weight change -/
-theorem insert_uniform : ∀ (fuel : Nat) (n : WN) (t : PT) (m : Nat) (key : List Nib), abs n = some t →
+theorem insert_uniform_spec : ∀ (fuel : Nat) (n : WN) (t : PT) (m : Nat) (key : List Nib), abs n = some t →
     Uniform m t → key.length = m → key.length + 1 ≤ fuel →
     (insert hasDb s fuel n key (.value [] v w true)).err = none ∧
     (WInv n → WInv (insert hasDb s fuel n key (.value [] v w true)).node ∧
@@ -316,12 +316,12 @@ theorem insert_uniform : ∀ (fuel : Nat) (n : WN) (t : PT) (m : Nat) (key : Lis
       obtain ⟨sn, rfl⟩ := exists_nibs sk hu.2.1
       obtain ⟨hs, hle, hvb, huc⟩ := uniform_short_iff.mp hu
       rcases cp_cases sn key (by omega) with ⟨K2, rfl⟩ | ⟨a, i1, s', i2, K', rfl, rfl, hne⟩
-      · rw [insert_short_prefix _ _ _ hs]
+      · rw [insert_short_prefix_m _ _ _ hs]
         have hk2 : K2.length = m - sn.length := by simp at hk; omega
         have hsl : sn.length ≠ 0 := by simpa using hs
         obtain ⟨h1, h2⟩ := ih c t' _ K2 hc huc hk2 (by simp at hf; omega)
         exact ⟨h1, fun hw => h2 hw⟩
-      · rw [insert_short_split _ _ _ _ _ _ hne]
+      · rw [insert_short_split_m _ _ _ _ _ _ hne]
         refine ⟨rfl, fun hw => ?_⟩
         simp only [winv_mkShort, weight_mkShort]
         refine ⟨?_, ?_⟩
@@ -429,7 +429,7 @@ theorem insert_ok {fuel : Nat} {n : WN} {t : PT} {m : Nat} {key : List Nib} (ha 
     (hu : Uniform m t) (hk : key.length = m) (hf : key.length + 1 ≤ fuel) :
     (insert hasDb s fuel n key (.value [] v w true)).err = none ∧
       abs (insert hasDb s fuel n key (.value [] v w true)).node = some (t.insert key v w) :=
-  have h := (insert_uniform fuel n t m key ha hu hk hf).1
+  have h := (insert_uniform_spec fuel n t m key ha hu hk hf).1
   ⟨h, abs_insert fuel n t key ha h⟩
 
 /-- 3. the cached weights stay right and `change` is the weight difference -/
@@ -438,7 +438,7 @@ theorem winv_insert {fuel : Nat} {n : WN} {t : PT} {m : Nat} {key : List Nib} (h
     WInv (insert hasDb s fuel n key (.value [] v w true)).node ∧
       ((insert hasDb s fuel n key (.value [] v w true)).node.weight : Int) =
         n.weight + (insert hasDb s fuel n key (.value [] v w true)).change :=
-  (insert_uniform fuel n t m key ha hu hk hf).2 hw
+  (insert_uniform_spec fuel n t m key ha hu hk hf).2 hw
 
 end Insert
 
@@ -553,7 +553,7 @@ theorem delete_short_prefix_m (fuel : Nat) (sn K2 : List Nib) (h : Bytes) (c : W
 /-- 4/5 (combined): on a uniform in-memory trie without inner `.empty`, with a key of the right length, delete either
 reports not-found and leaves the node as it is, or succeeds with the node of `PT.delete`, keeps the invariants and
 reports the removed weight -/
-theorem delete_uniform : ∀ (fuel : Nat) (n : WN) (t : PT) (m : Nat) (key : List Nib), abs n = some t → NoEmpty n →
+theorem delete_uniform_spec : ∀ (fuel : Nat) (n : WN) (t : PT) (m : Nat) (key : List Nib), abs n = some t → NoEmpty n →
     Uniform m t → key.length = m → key.length + 1 ≤ fuel →
     ((delete H hasDb s fuel n key).err = some .notFound ∧ t.delete key = none ∧
         (delete H hasDb s fuel n key).node = n) ∨
@@ -716,7 +716,7 @@ theorem abs_delete (ha : abs n = some t) (hn : NoEmpty n) (hu : Uniform m t) (hk
     ((delete H hasDb s fuel n key).err = none ∧
       ∃ t', t.delete key = some t' ∧ abs (delete H hasDb s fuel n key).node = some t' ∧
         ((delete H hasDb s fuel n key).node = .nil ↔ t' = .none)) := by
-  rcases delete_uniform (H := H) (hasDb := hasDb) (s := s) fuel n t m key ha hn hu hk hf with
+  rcases delete_uniform_spec (H := H) (hasDb := hasDb) (s := s) fuel n t m key ha hn hu hk hf with
     ⟨h1, h2, h3⟩ | ⟨h1, h2, _, ⟨t', h4, h5⟩, _⟩
   · exact .inl ⟨h1, h2, h3, by rw [h3]; exact ha⟩
   · refine .inr ⟨h1, t', h4, h5, ?_⟩
@@ -730,7 +730,7 @@ theorem abs_delete (ha : abs n = some t) (hn : NoEmpty n) (hu : Uniform m t) (hk
 theorem noEmpty_delete (ha : abs n = some t) (hn : NoEmpty n) (hu : Uniform m t) (hk : key.length = m)
     (hf : key.length + 1 ≤ fuel) (he : (delete H hasDb s fuel n key).err = none) :
     (delete H hasDb s fuel n key).node ≠ .empty ∧ NoEmpty (delete H hasDb s fuel n key).node := by
-  rcases delete_uniform (H := H) (hasDb := hasDb) (s := s) fuel n t m key ha hn hu hk hf with
+  rcases delete_uniform_spec (H := H) (hasDb := hasDb) (s := s) fuel n t m key ha hn hu hk hf with
     ⟨h1, _, _⟩ | ⟨_, h2, h3, _, _⟩
   · rw [h1] at he; cases he
   · exact ⟨h2, h3⟩
@@ -740,7 +740,7 @@ theorem winv_delete (hw : WInv n) (ha : abs n = some t) (hn : NoEmpty n) (hu : U
     (hf : key.length + 1 ≤ fuel) (he : (delete H hasDb s fuel n key).err = none) :
     WInv (delete H hasDb s fuel n key).node ∧
       (delete H hasDb s fuel n key).node.weight + (delete H hasDb s fuel n key).change = n.weight := by
-  rcases delete_uniform (H := H) (hasDb := hasDb) (s := s) fuel n t m key ha hn hu hk hf with
+  rcases delete_uniform_spec (H := H) (hasDb := hasDb) (s := s) fuel n t m key ha hn hu hk hf with
     ⟨h1, _, _⟩ | ⟨_, _, _, _, h6⟩
   · rw [h1] at he; cases he
   · exact h6 hw
@@ -765,5 +765,66 @@ theorem noEmpty_normRoot (n : WN) : NoEmpty (normRoot n) ↔ NoEmpty n := by
 
 theorem inv_empty : abs .empty = some .none ∧ WInv .empty ∧ NoEmpty .empty ∧ ∀ m, Uniform m .none :=
   ⟨rfl, trivial, trivial, uniform_none⟩
+
+theorem fuelFor_ok (key : List Nib) : key.length + 1 ≤ fuelFor key := by
+  unfold fuelFor; omega
+
+/-! ### the combined invariant, maintained from the empty trie by insert / delete with keys of one length -/
+
+/-- `n` is an in-memory trie for the uniform spec tree `t` (all keys of length `m`) with right cached weights -/
+structure Good (m : Nat) (n : WN) (t : PT) : Prop where
+  abs_eq : abs n = some t
+  winv : WInv n
+  noEmpty : NoEmpty n
+  uniform : Uniform m t
+
+theorem good_empty (m : Nat) : Good m .empty .none := ⟨rfl, trivial, trivial, uniform_none m⟩
+
+theorem Good.weight {m : Nat} {n : WN} {t : PT} (g : Good m n t) : n.weight = t.weight :=
+  weight_abs g.winv g.abs_eq
+
+theorem Good.normRoot {m : Nat} {n : WN} {t : PT} (g : Good m n t) : Good m (normRoot n) t :=
+  ⟨by rw [abs_normRoot]; exact g.abs_eq, (winv_normRoot n).mpr g.winv, (noEmpty_normRoot n).mpr g.noEmpty, g.uniform⟩
+
+theorem good_insert {hasDb : Bool} {s : Store} {v : Bytes} {w : Nat} {fuel m : Nat} {n : WN} {t : PT}
+    {key : List Nib} (g : Good m n t) (hk : key.length = m) (hf : key.length + 1 ≤ fuel) :
+    (insert hasDb s fuel n key (.value [] v w true)).err = none ∧
+      Good m (insert hasDb s fuel n key (.value [] v w true)).node (t.insert key v w) ∧
+      ((insert hasDb s fuel n key (.value [] v w true)).node.weight : Int) =
+        n.weight + (insert hasDb s fuel n key (.value [] v w true)).change := by
+  obtain ⟨h1, h2⟩ := insert_ok (hasDb := hasDb) (s := s) (v := v) (w := w) g.abs_eq g.uniform hk hf
+  obtain ⟨h3, h4⟩ := winv_insert (hasDb := hasDb) (s := s) (v := v) (w := w) g.winv g.abs_eq g.uniform hk hf
+  exact ⟨h1, ⟨h2, h3, (noEmpty_insert fuel n t key g.abs_eq g.noEmpty h1).2, uniform_insert g.uniform hk v w⟩, h4⟩
+
+theorem good_delete {H : Bytes → Bytes} {hasDb : Bool} {s : Store} {fuel m : Nat} {n : WN} {t : PT}
+    {key : List Nib} (g : Good m n t) (hk : key.length = m) (hf : key.length + 1 ≤ fuel) :
+    ((delete H hasDb s fuel n key).err = some .notFound ∧ t.delete key = none ∧
+        (delete H hasDb s fuel n key).node = n) ∨
+    ((delete H hasDb s fuel n key).err = none ∧
+      ∃ t', t.delete key = some t' ∧ Good m (delete H hasDb s fuel n key).node t' ∧
+        (delete H hasDb s fuel n key).node.weight + (delete H hasDb s fuel n key).change = n.weight) := by
+  rcases delete_uniform_spec (H := H) (hasDb := hasDb) (s := s) fuel n t m key g.abs_eq g.noEmpty g.uniform hk hf with
+    ⟨h1, h2, h3⟩ | ⟨h1, _, h3, ⟨t', h4, h5⟩, h6⟩
+  · exact .inl ⟨h1, h2, h3⟩
+  · obtain ⟨h7, h8⟩ := h6 g.winv
+    exact .inr ⟨h1, t', h4, ⟨h5, h7, h3, uniform_delete g.uniform hk h4⟩, h8⟩
+
+/-- without a domain hypothesis statement 3 fails: an empty key at a routing node replaces the node by the value and
+reports the value's weight as the change -/
+theorem winv_insert_counterexample (hasDb : Bool) (s : Store) :
+    ∃ (n : WN) (t : PT), WInv n ∧ abs n = some t ∧ NoEmpty n ∧
+      (insert hasDb s 1 n [] (.value [] [2] 3 true)).err = none ∧
+      ((insert hasDb s 1 n [] (.value [] [2] 3 true)).node.weight : Int) ≠
+        n.weight + (insert hasDb s 1 n [] (.value [] [2] 3 true)).change := by
+  refine ⟨.routing [] (upd noCh 0 (.value [] [1] 5 true)) 5 true false, _,
+    ?_, abs_routing_of (abs_upd 0 abs_noCh rfl), ?_, rfl, ?_⟩
+  · refine ⟨winv_upd 0 (fun _ => trivial) trivial, ?_⟩
+    have e2 := sum_upd WN.weight noCh 0 (.value [] [1] 5 true)
+    have e3 := sum_noCh WN.weight rfl
+    have e5 : (noCh 0).weight = 0 := rfl
+    have e6 : (WN.value [] [1] 5 true).weight = 5 := rfl
+    omega
+  · exact noEmpty_upd 0 (fun _ => ⟨by simp [noCh], trivial⟩) ⟨by simp, trivial⟩
+  · simp [insert, WN.weight]
 
 end Verif.Wmpt
